@@ -126,6 +126,49 @@ Proof.
     split; [exact Em|]. split; [reflexivity|]. split; [exact E|]. tauto.
 Qed.
 
+(* do_pass_token leaves the hold-time bookkeeping, the parameters and the application cursor alone *)
+Lemma do_pass_token_hold f now (w : W) f' w' :
+  do_pass_token A f now w = Ok (f', w') ->
+  f_p f' = f_p f /\ f_last_token_time f' = f_last_token_time f /\ f_end_tht f' = f_end_tht f /\
+  f_next_app f' = f_next_app f /\ f_conn f' = f_conn f.
+Proof.
+  unfold do_pass_token. intros H.
+  destruct (assert_entry DoPassToken f); cbn [bind] in H; try discriminate H.
+  destruct (wait_synchronization_pause f now) as [[f1 wait]| |] eqn:Ew; cbn [bind] in H; try discriminate H.
+  apply wait_sync_same in Ew. destruct Ew as [[Hp1 [_ [Hc1 [_ [_ [_ [Hl1 [He1 Hn1]]]]]]]] _].
+  destruct wait; [injection H as <- _; repeat split; assumption|].
+  destruct (get_pass_token (f_state f1)) as [[g att]| |]; cbn [bind] in H; try discriminate H.
+  match type of H with bind ?x _ = _ => destruct x as [[[f2 w2] polled]| |] eqn:E2 end; cbn [bind] in H; try discriminate H.
+  assert (H2 : f_p f2 = f_p f1 /\ f_last_token_time f2 = f_last_token_time f1 /\ f_end_tht f2 = f_end_tht f1 /\
+               f_next_app f2 = f_next_app f1 /\ f_conn f2 = f_conn f1).
+  { destruct g; [|injection E2 as <- _ _; repeat split; reflexivity].
+    match type of E2 with bind ?x _ = _ => destruct x as [[f3 w3]| |] eqn:E3 end; cbn [bind] in E2; try discriminate E2.
+    assert (H3 : f_p f3 = f_p f1 /\ f_last_token_time f3 = f_last_token_time f1 /\ f_end_tht f3 = f_end_tht f1 /\
+                 f_next_app f3 = f_next_app f1 /\ f_conn f3 = f_conn f1).
+    { destruct (f_gap f1) as [rc|cur].
+      - destruct (p_gap_wait (f_p f1) <? rc).
+        + apply next_gap_poll_traced_spec in E3. destruct E3 as [g0 [_ [-> _]]]. cbn. repeat split; reflexivity.
+        + destruct (u8_add rc 1); cbn [bind] in E3; try discriminate E3. injection E3 as <- _. cbn. repeat split; reflexivity.
+      - apply next_gap_poll_traced_spec in E3. destruct E3 as [g0 [_ [-> _]]]. cbn. repeat split; reflexivity. }
+    apply transmit_gap_poll_spec in E2. destruct E2 as [[Hp [_ [Hc [_ [_ [_ [Hl [He Hn]]]]]]]] _].
+    destruct H3 as [Hp3 [Hl3 [He3 [Hn3 Hc3]]]]. repeat split; congruence. }
+  destruct H2 as [Hp2 [Hl2 [He2 [Hn2 Hc2]]]].
+  destruct polled as [pa|].
+  - apply trans_spec in H. destruct H as [s' [_ [-> _]]]. cbn. repeat split; congruence.
+  - destruct (phy_send A w2 _) as [[w3 n]| |]; cbn [bind] in H; try discriminate H.
+    destruct (witness _ _ _) as [r| |]; cbn [bind] in H; try discriminate H.
+    match type of H with bind ?x _ = _ => destruct x as [[f4 w4]| |] eqn:E4 end; cbn [bind] in H; try discriminate H.
+    destruct (mark_tx f4 now n) as [f5| |] eqn:Em; cbn [bind] in H; try discriminate H. injection H as <- _.
+    apply mark_tx_same in Em. destruct Em as [Hp5 [_ [Hc5 [_ [_ [_ [Hl5 [He5 Hn5]]]]]]]].
+    assert (H4 : f_p f4 = f_p f2 /\ f_last_token_time f4 = f_last_token_time f2 /\ f_end_tht f4 = f_end_tht f2 /\
+                 f_next_app f4 = f_next_app f2 /\ f_conn f4 = f_conn f2).
+    { match type of E4 with (if ?c then _ else _) = _ => destruct c end.
+      - apply trans_spec in E4. destruct E4 as [s' [_ [-> _]]]. cbn. repeat split; reflexivity.
+      - destruct (get_pass_token _) as [[g2 att2]| |]; cbn [bind] in E4; try discriminate E4.
+        apply trans_spec in E4. destruct E4 as [s' [_ [-> _]]]. cbn. repeat split; reflexivity. }
+    destruct H4 as [Hp4 [Hl4 [He4 [Hn4 Hc4]]]]. repeat split; congruence.
+Qed.
+
 (* ------------------------------------------------------------------------------------------ *)
 (* C12: both callers of transmit_gap_poll_if_pending poll only inside the GAP                   *)
 
@@ -482,14 +525,14 @@ Qed.
 (* The hold-time rule, "only if" half: whenever do_use_token asks applications, either the time is
    still before the end of the hold time of this visit (low-priority round), or the hold time is over
    and this is the one guaranteed (high-priority) round of the visit. *)
-Lemma do_use_token_hold_rule f now (w : W) f' w' :
-  do_use_token A ops f now w = Ok (f', w') ->
+Lemma do_use_token_head_hold_rule f now (w : W) f' w' :
+  do_use_token_head A ops f now w = Ok (f', w') ->
   exists l hp, w_calls w' = w_calls w ++ l /\ Forall (is_transmit_call hp) l /\
     (l <> [] ->
      if hp then (exists tk fa, f_state f = UseToken tk fa false) /\ f_end_tht f' <= now
      else now < f_end_tht f').
 Proof.
-  unfold do_use_token, assert_entry. intros H.
+  unfold do_use_token_head, assert_entry. intros H.
   destruct (f_state f) as [ | | | |tk fa fcd| | | | | ] eqn:Es; cbn [kind_of do_fn_entry state_kind_eqb bind get_use_token] in H; try discriminate H.
   match type of H with bind ?x _ = _ => destruct x as [[f1 w1]| |] eqn:E1 end; cbn [bind] in H; try discriminate H.
   assert (H1 : w_calls w1 = w_calls w /\ f_state f1 = f_state f).
@@ -526,6 +569,136 @@ Proof.
           apply trans_spec in H. destruct H as [s' [_ [-> ->]]]. split; reflexivity. }
         destruct Hfin as [Hcw Hef]. exists l, true. rewrite Hcw, Hl, Hc1. split; [reflexivity|]. split; [exact Hf|].
         intros _. split; [exists tk, fa; reflexivity|]. rewrite Hef, He3. exact Hge.
+Qed.
+
+(* When the head of do_use_token turns to passing the token, no application has sent anything: the
+   calls of the poll so far are declines (transmit_telegram returned None), nothing was handed to the
+   PHY, and apart from the hold-time bookkeeping, the application cursor and the state the station is
+   as it was. *)
+Definition is_decline (c : call) : Prop := exists i hp, c = CallTransmit i hp None.
+
+Definition head_frame (f f1 : fdl) (w w1 : W) : Prop :=
+  f_p f1 = f_p f /\ f_ring f1 = f_ring f /\ f_conn f1 = f_conn f /\ f_gap f1 = f_gap f /\
+  f_pending f1 = f_pending f /\
+  w_tx w1 = w_tx w /\ w_rx w1 = w_rx w /\ exists l, w_calls w1 = w_calls w ++ l /\ Forall is_decline l.
+
+Lemma head_frame_refl f w : head_frame f f w w.
+Proof. unfold head_frame. repeat (split; [reflexivity|]). exists []. rewrite app_nil_r. split; [reflexivity|constructor]. Qed.
+
+Lemma head_frame_trans f f1 f2 w w1 w2 : head_frame f f1 w w1 -> head_frame f1 f2 w1 w2 -> head_frame f f2 w w2.
+Proof.
+  intros [A1 [A2 [A3 [A4 [A5 [A6 [A7 [l1 [A8 A9]]]]]]]]] [B1 [B2 [B3 [B4 [B5 [B6 [B7 [l2 [B8 B9]]]]]]]]].
+  unfold head_frame. repeat (split; [congruence|]). exists (l1 ++ l2).
+  split; [rewrite B8, A8, app_assoc; reflexivity|apply Forall_app; split; assumption].
+Qed.
+
+Lemma app_transmit_decline f now (w : W) idx app hp f' w' :
+  app_transmit_telegram A ops f now w idx app hp = Ok (f', w', false) ->
+  f' = f /\ w_tx w' = w_tx w /\ w_rx w' = w_rx w /\ w_calls w' = w_calls w ++ [CallTransmit idx hp None].
+Proof.
+  unfold app_transmit_telegram. intros H.
+  destruct (a_tx ops app now (f_p f) hp) as [[app' r]| |]; cbn [bind] in H; try discriminate H.
+  destruct r as [[wire exp]|].
+  - destruct (phy_transmit A _ wire) as [w1| |]; cbn [bind] in H; try discriminate H.
+    match type of H with bind ?x _ = _ => destruct x as [[f1 w2]| |] end; cbn [bind] in H; try discriminate H.
+    destruct (mark_tx f1 now _); cbn [bind] in H; discriminate H.
+  - injection H as <- <-. cbn. repeat split; reflexivity.
+Qed.
+
+Lemma apps_loop_declines n : forall f now (w : W) hp f' w',
+  apps_transmit_loop A ops n f now w hp = Ok (f', w', false) -> head_frame f f' w w'.
+Proof.
+  induction n as [|n IH]; intros f now w hp f' w' H; cbn [apps_transmit_loop] in H.
+  - injection H as <- <-. apply head_frame_refl.
+  - destruct (nth_error (w_apps w) (f_next_app f)) as [app|]; [|discriminate H].
+    destruct (app_transmit_telegram A ops f now w (f_next_app f) app hp) as [[[f1 w1] d1]| |] eqn:Ea; cbn [bind] in H; try discriminate H.
+    destruct d1; [discriminate H|].
+    apply app_transmit_decline in Ea. destruct Ea as [-> [T1 [R1 C1]]].
+    assert (F1 : head_frame f f w w1).
+    { unfold head_frame. repeat (split; [reflexivity || assumption|]). eexists. split; [exact C1|].
+      constructor; [eexists; eexists; reflexivity|constructor]. }
+    unfold schedule_next_application in H.
+    destruct (get_use_token (f_state f)) as [[[tk fa] fcd]| |]; cbn [bind] in H; try discriminate H.
+    destruct (Nat.eqb (length (w_apps w1)) 0); [discriminate H|]. cbn [bind] in H.
+    match type of H with (if ?c then _ else _) = _ => destruct c end.
+    + injection H as <- <-. eapply head_frame_trans; [exact F1|].
+      unfold head_frame. cbn. repeat (split; [reflexivity|]). exists []. rewrite app_nil_r. split; [reflexivity|constructor].
+    + apply IH in H. eapply head_frame_trans; [exact F1|].
+      destruct H as [B1 [B2 [B3 [B4 [B5 [B6 [B7 B8]]]]]]]. cbn in B1, B2, B3, B4, B5.
+      unfold head_frame. repeat (split; [assumption|]). exact B8.
+Qed.
+
+Lemma do_use_token_head_pass f now (w : W) f1 w1 :
+  do_use_token_head A ops f now w = Ok (f1, w1) -> is_pass_token (f_state f1) = true ->
+  f_state f1 = PassToken true first_attempt /\ kind_of (f_state f) = KUseToken /\ head_frame f f1 w w1.
+Proof.
+  unfold do_use_token_head, assert_entry. intros H Hk.
+  destruct (f_state f) as [ | | | |tk fa fcd| | | | | ] eqn:Es; cbn [kind_of do_fn_entry state_kind_eqb bind get_use_token] in H; try discriminate H.
+  match type of H with bind ?x _ = _ => destruct x as [[f2 w2]| |] eqn:E1 end; cbn [bind] in H; try discriminate H.
+  assert (H1 : head_frame f f2 w w2 /\ f_state f2 = f_state f).
+  { destruct (negb _).
+    - destruct (inst_add _ _) as [e| |]; cbn [bind] in E1; try discriminate E1.
+      destruct (f_gap f) eqn:Eg.
+      + injection E1 as <- <-. split; [|reflexivity]. unfold head_frame. cbn. rewrite Eg. repeat (split; [reflexivity|]).
+        exists []. rewrite app_nil_r. split; [reflexivity|constructor].
+      + destruct (inst_sub_dur _ _) as [e2| |]; cbn [bind] in E1; try discriminate E1.
+        injection E1 as <- <-. split; [|reflexivity]. unfold head_frame. cbn. rewrite Eg. repeat (split; [reflexivity|]).
+        exists []. rewrite app_nil_r. split; [reflexivity|constructor].
+    - injection E1 as <- <-. split; [apply head_frame_refl|reflexivity]. }
+  destruct H1 as [F2 Hs2].
+  destruct (wait_synchronization_pause f2 now) as [[f3 wait]| |] eqn:Ew; cbn [bind] in H; try discriminate H.
+  apply wait_sync_same in Ew. destruct Ew as [[Hp3 [Hr3 [Hc3 [Hg3 [Hs3 [Hpe3 _]]]]]] _].
+  assert (F3 : head_frame f f3 w w2).
+  { destruct F2 as [A1 [A2 [A3 [A4 [A5 [A6 [A7 A8]]]]]]]. unfold head_frame. repeat (split; [congruence|]). exact A8. }
+  destruct wait.
+  - injection H as <- <-. rewrite Hs3, Hs2, Es in Hk. discriminate Hk.
+  - rewrite Hs3, Hs2, Es in H. cbn [get_use_token bind] in H.
+    match type of H with bind ?x _ = _ => destruct x as [[[f4 w4] d]| |] eqn:E4 end; cbn [bind] in H; try discriminate H.
+    assert (Hfc : forall f3', set_first_cycle_done f3 = Ok f3' -> f3' = set_st f3 (UseToken tk fa true)).
+    { intros f3' Hc. unfold set_first_cycle_done in Hc. rewrite Hs3, Hs2, Es in Hc. cbn [get_use_token bind] in Hc.
+      injection Hc as <-. reflexivity. }
+    destruct d.
+    + injection H as <- <-. exfalso.
+      assert (Hn : is_pass_token (f_state f4) = false).
+      { destruct (now <? f_end_tht f3).
+        - destruct (set_first_cycle_done f3) as [f3'| |] eqn:Ec; cbn [bind] in E4; try discriminate E4.
+          unfold apps_transmit_telegram in E4. apply apps_transmit_loop_not_pass in E4; [exact E4|]. rewrite (Hfc _ eq_refl). reflexivity.
+        - destruct (negb fcd); [|discriminate E4].
+          destruct (set_first_cycle_done f3) as [f3'| |] eqn:Ec; cbn [bind] in E4; try discriminate E4.
+          unfold apps_transmit_telegram in E4. apply apps_transmit_loop_not_pass in E4; [exact E4|]. rewrite (Hfc _ eq_refl). reflexivity. }
+      rewrite Hn in Hk. discriminate Hk.
+    + assert (F4 : head_frame f f4 w w4).
+      { assert (Hl : forall hp tg, (let* f0 := set_first_cycle_done f3 in apps_transmit_telegram A ops f0 now (note A w2 tg) hp) = Ok (f4, w4, false) ->
+                      head_frame f f4 w w4).
+        { intros hp tg Hl. destruct (set_first_cycle_done f3) as [f3'| |] eqn:Ec; cbn [bind] in Hl; try discriminate Hl.
+          rewrite (Hfc _ eq_refl) in Hl. unfold apps_transmit_telegram in Hl. apply apps_loop_declines in Hl.
+          eapply head_frame_trans; [exact F3|].
+          destruct Hl as [B1 [B2 [B3 [B4 [B5 [B6 [B7 B8]]]]]]]. cbn in B1, B2, B3, B4, B5, B6, B7, B8.
+          unfold head_frame. repeat (split; [assumption|]). exact B8. }
+        destruct (now <? f_end_tht f3); [exact (Hl _ _ E4)|].
+        destruct (negb fcd); [exact (Hl _ _ E4)|]. injection E4 as <- <-.
+        destruct F3 as [A1 [A2 [A3 [A4 [A5 [A6 [A7 A8]]]]]]]. unfold head_frame. cbn. repeat (split; [assumption|]). exact A8. }
+      apply trans_spec in H. destruct H as [s' [Ht [-> ->]]].
+      unfold transition_pass_token in Ht. destruct (assert_kind _ _); cbn [bind] in Ht; try discriminate Ht. injection Ht as <-.
+      split; [reflexivity|]. split; [reflexivity|].
+      destruct F4 as [A1 [A2 [A3 [A4 [A5 [A6 [A7 A8]]]]]]]. unfold head_frame. cbn. repeat (split; [assumption|]). exact A8.
+Qed.
+
+Lemma do_use_token_hold_rule f now (w : W) f' w' :
+  do_use_token A ops f now w = Ok (f', w') ->
+  exists l hp, w_calls w' = w_calls w ++ l /\ Forall (is_transmit_call hp) l /\
+    (l <> [] ->
+     if hp then (exists tk fa, f_state f = UseToken tk fa false) /\ f_end_tht f' <= now
+     else now < f_end_tht f').
+Proof.
+  rewrite do_use_token_split. intros H.
+  destruct (do_use_token_head A ops f now w) as [[f1 w1]| |] eqn:Eh; cbn [bind] in H; try discriminate H.
+  apply do_use_token_head_hold_rule in Eh.
+  destruct (is_pass_token (f_state f1)); [|injection H as <- <-; exact Eh].
+  destruct Eh as [l [hp [Hc [Hf Hr]]]].
+  pose proof (do_pass_token_frame A f1 now w1 f' w' H) as [Hc' _].
+  apply do_pass_token_hold in H. destruct H as [_ [_ [He _]]].
+  exists l, hp. rewrite Hc', He. split; [exact Hc|]. split; [exact Hf|exact Hr].
 Qed.
 
 
